@@ -218,7 +218,9 @@ def handleParams (j : Json) : Except String Json := do
 /-- `{"chunks": [str..]}` → what the streaming branch hands to the read stream -/
 def handleStream (j : Json) : Except String Json := do
   let chunks ← j.getObjValAs? (Array String) "chunks"
-  let evs := Verif.Model.SseStream.parseStream (chunks.toList.map String.toList)
+  let aborted := (j.getObjValAs? Bool "aborted").toOption.getD false
+  let evs := if aborted then Verif.Model.SseStream.parseStreamAborted (chunks.toList.map String.toList)
+             else Verif.Model.SseStream.parseStream (chunks.toList.map String.toList)
   let msgs := evs.flatMap (sseEventMsgs leanDec)
   return Json.mkObj [
     ("events", Json.arr (evs.map (fun e => Json.arr #[Json.str (String.ofList e.1), Json.str (String.ofList e.2)])).toArray),
